@@ -9,8 +9,12 @@
     The alphabet has three kinds of letters:
 
     - markers, written by the harness around its own API calls for that name
-      (Add / Reconnect / Remove called and returned); calls for ONE name are
-      issued one after the other (calls for different names run concurrently);
+      (Add / Reconnect / Remove called and returned).  The first client
+      goroutine issues its calls for the name one after the other; while one of
+      its Removes is in progress (it holds the manager lock and waits for the
+      monitoring goroutine) a SECOND client goroutine may call Add / Remove /
+      Reconnect for the same name ([XCalled] / [XReturned]): on the code as it
+      is these block on the manager lock until that Remove has completed;
     - environment queries made by the manager together with the environment's
       answer (credentials lookup, dial, the done func of a connection, stream
       open, Send, Recv) -- the "fault script" is the sub-sequence of these;
@@ -40,6 +44,8 @@ Inductive rres :=
 | REof                (* Recv returned io.EOF *)
 | RCancel.            (* Recv returned because the stream's context is done *)
 
+Inductive xkind := KAdd | KRemove | KReconnect.
+
 Inductive event :=
 (* markers *)
 | EAddCalled                  (* Manager.Add(name, ...) is about to be called *)
@@ -63,12 +69,19 @@ Inductive event :=
 | CSync
 | CReset
 | CConnErr
-| CMonErr.
+| CMonErr
+(* markers of calls issued for the same name by a SECOND client goroutine while
+   a Remove(name) of the first one is in progress (it has the manager lock),
+   and of the harness gate that holds a callback open meanwhile *)
+| XCalled (k : xkind)
+| XReturned (k : xkind) (ok : bool)
+| EGateClosed
+| EGateOpen.
 
 Definition is_marker (e : event) : bool :=
   match e with
   | EAddCalled | EAdd _ | EReconnectCalled | EReconnectReturned _ | ERemoveCalled | ERemoveReturned _
-  | EHang | EStall => true
+  | EHang | EStall | XCalled _ | XReturned _ _ | EGateClosed | EGateOpen => true
   | _ => false
   end.
 
@@ -116,6 +129,10 @@ Inductive rcst := RcNone | RcPending | RcFired.
     the harness sees Add return) or on a managed name (it will be refused) *)
 Inductive addst := AddNone | AddFresh | AddDup.
 
+(** call of the second client goroutine: pending (blocked on the manager
+    lock), or done inside the manager with its return not yet logged *)
+Inductive xst := XNone | XP (k : xkind) | XE (k : xkind).
+
 Record st := {
   s_pc : pc;
   s_rmc : bool;     (* Remove(name) has been called and has not returned *)
@@ -126,18 +143,29 @@ Record st := {
   s_stale : nat;    (* retryMonitor exits of earlier incarnations of this name *)
   s_phu : bool;     (* handleUpdates ran in an earlier incarnation of this name *)
   s_add : addst;    (* harness Add(name) in flight *)
+  s_x : xst;        (* call of the second client goroutine in flight *)
+  s_rr : bool;      (* the Remove in progress is complete inside the manager (finished closed,
+                       entry deleted, lock released); its caller has not logged the return yet *)
 }.
 
 Definition init : st :=
   {| s_pc := PIdle; s_rmc := false; s_cdone := false; s_sdone := false; s_rc := RcNone;
-     s_hu := false; s_stale := 0; s_phu := false; s_add := AddNone |}.
+     s_hu := false; s_stale := 0; s_phu := false; s_add := AddNone; s_x := XNone; s_rr := false |}.
 
 Definition set_pc (s : st) (p : pc) : st :=
   {| s_pc := p; s_rmc := s_rmc s; s_cdone := s_cdone s; s_sdone := s_sdone s; s_rc := s_rc s;
-     s_hu := s_hu s; s_stale := s_stale s; s_phu := s_phu s; s_add := s_add s |}.
+     s_hu := s_hu s; s_stale := s_stale s; s_phu := s_phu s; s_add := s_add s; s_x := s_x s; s_rr := s_rr s |}.
 
 Definition managed (s : st) : bool :=
   match s_pc s with PIdle => false | _ => true end.
+
+Definition x_none (s : st) : bool := match s_x s with XNone => true | _ => false end.
+
+Definition xkind_eqb (a b : xkind) : bool :=
+  match a, b with
+  | KAdd, KAdd | KRemove, KRemove | KReconnect, KReconnect => true
+  | _, _ => false
+  end.
 
 (** DEFECT C13_1 (fixed in /repo by ada8f84): retryMonitor's deferred
     [m.Reconnect(ta.name)] and the receive-timeout goroutine's
@@ -154,34 +182,71 @@ Definition tau (c : cfg) (s : st) : list st :=
   (* Remove: t.cancel() *)
   (if s_rmc s && negb (s_cdone s)
    then [{| s_pc := s_pc s; s_rmc := true; s_cdone := true; s_sdone := true; s_rc := s_rc s;
-            s_hu := s_hu s; s_stale := s_stale s; s_phu := s_phu s; s_add := s_add s |}] else [])
+            s_hu := s_hu s; s_stale := s_stale s; s_phu := s_phu s; s_add := s_add s; s_x := s_x s; s_rr := s_rr s |}] else [])
   ++
   (* Reconnect issued through the API: t.reconnect() *)
   (match s_rc s with
    | RcPending =>
        [{| s_pc := s_pc s; s_rmc := s_rmc s; s_cdone := s_cdone s; s_sdone := true; s_rc := RcFired;
-           s_hu := s_hu s; s_stale := s_stale s; s_phu := s_phu s; s_add := s_add s |}]
+           s_hu := s_hu s; s_stale := s_stale s; s_phu := s_phu s; s_add := s_add s; s_x := s_x s; s_rr := s_rr s |}]
    | _ => []
    end)
   ++
   (* the receive-timeout goroutine of a stream of this incarnation: m.Reconnect(name) *)
   (if c_timeout c && s_hu s && managed s && negb (s_sdone s)
    then [{| s_pc := s_pc s; s_rmc := s_rmc s; s_cdone := s_cdone s; s_sdone := true; s_rc := s_rc s;
-            s_hu := s_hu s; s_stale := s_stale s; s_phu := s_phu s; s_add := s_add s |}] else [])
+            s_hu := s_hu s; s_stale := s_stale s; s_phu := s_phu s; s_add := s_add s; s_x := s_x s; s_rr := s_rr s |}] else [])
   ++
   (* DEFECT C13_1 (fixed): a Reconnect-by-name left over from an earlier incarnation;
      dead now that [stale_reconnect_by_name] is [false] *)
   (if stale_reconnect_by_name && managed s && negb (s_sdone s)
    then (match s_stale s with
          | S k => [{| s_pc := s_pc s; s_rmc := s_rmc s; s_cdone := s_cdone s; s_sdone := true;
-                      s_rc := s_rc s; s_hu := s_hu s; s_stale := k; s_phu := s_phu s; s_add := s_add s |}]
+                      s_rc := s_rc s; s_hu := s_hu s; s_stale := k; s_phu := s_phu s; s_add := s_add s; s_x := s_x s; s_rr := s_rr s |}]
          | O => []
          end)
         ++ (if c_timeout c && s_phu s
             then [{| s_pc := s_pc s; s_rmc := s_rmc s; s_cdone := s_cdone s; s_sdone := true;
-                     s_rc := s_rc s; s_hu := s_hu s; s_stale := s_stale s; s_phu := s_phu s; s_add := s_add s |}]
+                     s_rc := s_rc s; s_hu := s_hu s; s_stale := s_stale s; s_phu := s_phu s; s_add := s_add s; s_x := s_x s; s_rr := s_rr s |}]
             else [])
    else [])
+  ++
+  (* Remove completes inside the manager: <-t.finished returned, the entry is
+     deleted, the lock released (deferred Unlock); the caller has not logged
+     its return yet *)
+  (match s_pc s with
+   | PFinished =>
+       if s_rmc s
+       then [{| s_pc := PIdle; s_rmc := false; s_cdone := false; s_sdone := false;
+                s_rc := RcNone; s_hu := false; s_stale := S (s_stale s);
+                s_phu := s_phu s || s_hu s; s_add := s_add s; s_x := s_x s; s_rr := true |}]
+       else []
+   | _ => []
+   end)
+  ++
+  (* the call of the second client goroutine gets the manager lock: only once
+     the Remove in progress has released it; the name is then unmanaged, so
+     Add starts a fresh monitor, Remove and Reconnect find nothing *)
+  (match s_x s with
+   | XP k =>
+       if s_rmc s then []
+       else match s_pc s with
+            | PIdle =>
+                match k with
+                | KAdd =>
+                    [{| s_pc := PLoop; s_rmc := false; s_cdone := false; s_sdone := false;
+                        s_rc := RcNone; s_hu := false; s_stale := s_stale s; s_phu := s_phu s;
+                        s_add := s_add s; s_x := XE KAdd; s_rr := s_rr s |}]
+                | _ =>
+                    [{| s_pc := s_pc s; s_rmc := s_rmc s; s_cdone := s_cdone s;
+                        s_sdone := s_sdone s; s_rc := s_rc s; s_hu := s_hu s;
+                        s_stale := s_stale s; s_phu := s_phu s; s_add := s_add s;
+                        s_x := XE k; s_rr := s_rr s |}]
+                end
+            | _ => []
+            end
+   | _ => []
+   end)
   ++
   (* the goroutine's own hidden steps *)
   (match s_pc s with
@@ -193,7 +258,7 @@ Definition tau (c : cfg) (s : st) : list st :=
           ctx, hence done iff ctx is. *)
        (if s_cdone s then [set_pc s PFinished] else [])
        ++ [{| s_pc := PMeta; s_rmc := s_rmc s; s_cdone := s_cdone s; s_sdone := s_cdone s;
-              s_rc := s_rc s; s_hu := s_hu s; s_stale := s_stale s; s_phu := s_phu s; s_add := s_add s |}]
+              s_rc := s_rc s; s_hu := s_hu s; s_stale := s_stale s; s_phu := s_phu s; s_add := s_add s; s_x := s_x s; s_rr := s_rr s |}]
    | PMeta => if c_creds c then [] else [set_pc s (PConnCheck (c_hops c))]
    | PConnCheck lft =>
        match lft with
@@ -212,18 +277,18 @@ Definition vis (c : cfg) (s : st) (e : event) : list st :=
   match e with
   (* --- markers ------------------------------------------------------- *)
   | EAddCalled =>
-      match s_add s, s_rc s, s_rmc s with
+      match s_add s, s_rc s, s_rmc s || s_rr s || negb (x_none s) with
       | AddNone, RcNone, false =>
           match s_pc s with
           | PIdle =>
               (* Add inserts the target and starts retryMonitor before it returns *)
               [{| s_pc := PLoop; s_rmc := false; s_cdone := false; s_sdone := false;
                   s_rc := RcNone; s_hu := false; s_stale := s_stale s; s_phu := s_phu s;
-                  s_add := AddFresh |}]
+                  s_add := AddFresh; s_x := s_x s; s_rr := s_rr s |}]
           | _ =>
               [{| s_pc := s_pc s; s_rmc := s_rmc s; s_cdone := s_cdone s; s_sdone := s_sdone s;
                   s_rc := s_rc s; s_hu := s_hu s; s_stale := s_stale s; s_phu := s_phu s;
-                  s_add := AddDup |}]
+                  s_add := AddDup; s_x := s_x s; s_rr := s_rr s |}]
           end
       | _, _, _ => []
       end
@@ -232,16 +297,16 @@ Definition vis (c : cfg) (s : st) (e : event) : list st :=
       | AddFresh, true | AddDup, false =>
           [{| s_pc := s_pc s; s_rmc := s_rmc s; s_cdone := s_cdone s; s_sdone := s_sdone s;
               s_rc := s_rc s; s_hu := s_hu s; s_stale := s_stale s; s_phu := s_phu s;
-              s_add := AddNone |}]
+              s_add := AddNone; s_x := s_x s; s_rr := s_rr s |}]
       | _, _ => []
       end
   | EReconnectCalled =>
-      match s_rc s, s_add s, s_rmc s with
+      match s_rc s, s_add s, s_rmc s || s_rr s || negb (x_none s) with
       | RcNone, AddNone, false =>
                   if managed s
                   then [{| s_pc := s_pc s; s_rmc := s_rmc s; s_cdone := s_cdone s;
                            s_sdone := s_sdone s; s_rc := RcPending; s_hu := s_hu s;
-                           s_stale := s_stale s; s_phu := s_phu s; s_add := s_add s |}]
+                           s_stale := s_stale s; s_phu := s_phu s; s_add := s_add s; s_x := s_x s; s_rr := s_rr s |}]
                   else [s]
       | _, _, _ => []
       end
@@ -249,35 +314,52 @@ Definition vis (c : cfg) (s : st) (e : event) : list st :=
       match s_rc s with
       | RcFired => [{| s_pc := s_pc s; s_rmc := s_rmc s; s_cdone := s_cdone s;
                        s_sdone := s_sdone s; s_rc := RcNone; s_hu := s_hu s;
-                       s_stale := s_stale s; s_phu := s_phu s; s_add := s_add s |}]
+                       s_stale := s_stale s; s_phu := s_phu s; s_add := s_add s; s_x := s_x s; s_rr := s_rr s |}]
       | _ => []
       end
   | EReconnectReturned false =>
       match s_rc s with
-      | RcNone => if managed s then [] else [s]
+      | RcNone => if managed s || s_rr s || negb (x_none s) then [] else [s]
       | _ => []
       end
   | ERemoveCalled =>
-      match s_rmc s, s_add s, s_rc s with
+      match s_rmc s || s_rr s || negb (x_none s), s_add s, s_rc s with
       | false, AddNone, RcNone =>
            if managed s
            then [{| s_pc := s_pc s; s_rmc := true; s_cdone := s_cdone s; s_sdone := s_sdone s;
-                    s_rc := s_rc s; s_hu := s_hu s; s_stale := s_stale s; s_phu := s_phu s; s_add := s_add s |}]
+                    s_rc := s_rc s; s_hu := s_hu s; s_stale := s_stale s; s_phu := s_phu s; s_add := s_add s; s_x := s_x s; s_rr := s_rr s |}]
            else [s]
       | _, _, _ => []
       end
   | ERemoveReturned true =>
-      match s_pc s with
-      | PFinished =>
+      if s_rr s
+      then [{| s_pc := s_pc s; s_rmc := s_rmc s; s_cdone := s_cdone s; s_sdone := s_sdone s;
+               s_rc := s_rc s; s_hu := s_hu s; s_stale := s_stale s; s_phu := s_phu s;
+               s_add := s_add s; s_x := s_x s; s_rr := false |}]
+      else []
+  | ERemoveReturned false => if managed s || s_rr s || negb (x_none s) then [] else [s]
+  | EHang | EStall => []
+  | XCalled k =>
+      match s_x s with
+      | XNone =>
           if s_rmc s
-          then [{| s_pc := PIdle; s_rmc := false; s_cdone := false; s_sdone := false;
-                   s_rc := RcNone; s_hu := false; s_stale := S (s_stale s);
-                   s_phu := s_phu s || s_hu s; s_add := s_add s |}]
+          then [{| s_pc := s_pc s; s_rmc := s_rmc s; s_cdone := s_cdone s; s_sdone := s_sdone s;
+                   s_rc := s_rc s; s_hu := s_hu s; s_stale := s_stale s; s_phu := s_phu s;
+                   s_add := s_add s; s_x := XP k; s_rr := s_rr s |}]
           else []
       | _ => []
       end
-  | ERemoveReturned false => if managed s then [] else [s]
-  | EHang | EStall => []
+  | XReturned k ok =>
+      match s_x s with
+      | XE k' =>
+          if xkind_eqb k k' && Bool.eqb ok (match k with KAdd => true | _ => false end)
+          then [{| s_pc := s_pc s; s_rmc := s_rmc s; s_cdone := s_cdone s; s_sdone := s_sdone s;
+                   s_rc := s_rc s; s_hu := s_hu s; s_stale := s_stale s; s_phu := s_phu s;
+                   s_add := s_add s; s_x := XNone; s_rr := s_rr s |}]
+          else []
+      | _ => []
+      end
+  | EGateClosed | EGateOpen => [s]
   (* --- the goroutine ------------------------------------------------- *)
   | ECred ok =>
       match s_pc s with
@@ -301,7 +383,7 @@ Definition vis (c : cfg) (s : st) (e : event) : list st :=
           if ok
           then [{| s_pc := PRecv false; s_rmc := s_rmc s; s_cdone := s_cdone s;
                    s_sdone := s_sdone s; s_rc := s_rc s; s_hu := true;
-                   s_stale := s_stale s; s_phu := s_phu s; s_add := s_add s |}]
+                   s_stale := s_stale s; s_phu := s_phu s; s_add := s_add s; s_x := s_x s; s_rr := s_rr s |}]
           else [set_pc s PDone]
       | _ => []
       end
@@ -392,10 +474,18 @@ Definition add_eqb (a b : addst) : bool :=
   | _, _ => false
   end.
 
+Definition x_eqb (a b : xst) : bool :=
+  match a, b with
+  | XNone, XNone => true
+  | XP k, XP k' | XE k, XE k' => xkind_eqb k k'
+  | _, _ => false
+  end.
+
 Definition st_eqb (a b : st) : bool :=
   pc_eqb (s_pc a) (s_pc b) && Bool.eqb (s_rmc a) (s_rmc b) && Bool.eqb (s_cdone a) (s_cdone b)
   && Bool.eqb (s_sdone a) (s_sdone b) && rc_eqb (s_rc a) (s_rc b) && Bool.eqb (s_hu a) (s_hu b)
-  && Nat.eqb (s_stale a) (s_stale b) && Bool.eqb (s_phu a) (s_phu b) && add_eqb (s_add a) (s_add b).
+  && Nat.eqb (s_stale a) (s_stale b) && Bool.eqb (s_phu a) (s_phu b) && add_eqb (s_add a) (s_add b)
+  && x_eqb (s_x a) (s_x b) && Bool.eqb (s_rr a) (s_rr b).
 
 Definition mem (s : st) (l : list st) : bool := existsb (st_eqb s) l.
 
@@ -443,7 +533,8 @@ Fixpoint first_reject (c : cfg) (i : nat) (l : list st) (tr : list event) : opti
   end.
 
 (** a finished log ends with the name unmanaged (the harness always removes) *)
-Definition final (s : st) : bool := match s_pc s with PIdle => true | _ => false end.
+Definition final (s : st) : bool :=
+  match s_pc s with PIdle => x_none s && negb (s_rr s) | _ => false end.
 
 Definition accepts (c : cfg) (tr : list event) : bool :=
   existsb final (reach_set c tr).
